@@ -333,7 +333,12 @@ def d5_cohesion_sampler(ctx):
         seq = [astx.u(x) for x in getattr(blk, "body", [])]
         lits = literals(Normalizer(f.node, inline=False).conj(astx.path_condition(f.node, sh[0], pm, carried=False)))
         after = seq[seq.index(astx.u(astx.stmt_of(sh[0], pm))) + 1:] if astx.u(astx.stmt_of(sh[0], pm)) in seq else []
-        good = okexp and after == [f"ballot_type[i + 1:] = {v}", "break"] and any("total_value_sum" in l for l in lits) and dv.lineno < sh[0].lineno
+        # the position: index of the enumerate loop over this ballot's coin flips, the one the drawn bloc is stored at
+        elp = astx.enclosing(sh[0], pm, ast.For)
+        pos = elp.target.elts[0].id if elp is not None and astx.call_name(elp.iter) == "enumerate" and isinstance(elp.target, ast.Tuple) and len(elp.target.elts) == 2 \
+            and isinstance(elp.target.elts[0], ast.Name) else "i"
+        stored = elp is not None and any(isinstance(n, ast.Assign) and astx.u(n.targets[0]) == f"ballot_type[{pos}]" for n in elp.body)
+        good = okexp and stored and after == [f"ballot_type[{pos} + 1:] = {v}", "break"] and any("total_value_sum" in l for l in lits) and dv.lineno < sh[0].lineno
     ctx.check(good, f, sh[0] if sh else f.node, "zero-cohesion tail: one slot per remaining candidate, the slots shuffled uniformly, written after position i, round stops", "",
               "the completion of a ballot among zero-cohesion slates changed (slots must be expanded per candidate BEFORE shuffling)")
     wb = prog.nested_func(f, "which_bin")
@@ -523,6 +528,7 @@ FAULTS += [
     ("cambridge majority threshold strict", [(BG, "bloc for bloc, prop in self.bloc_voter_prop.items() if prop >= 0.5", "bloc for bloc, prop in self.bloc_voter_prop.items() if prop > 0.5")], "C16.D7"),
     ("cambridge opp table normalised by bloc total", [(BG, "                ballot: freq / opp_bloc_first_count", "                ballot: freq / bloc_first_count")], "C16.D7"),
     ("cambridge assembly pops own slate for other label", [(BG, "                    else:\n                        if ordered_opp_slate:\n                            full_ballot.append(ordered_opp_slate.pop(0))", "                    else:\n                        if ordered_opp_slate:\n                            full_ballot.append(ordered_opp_slate.pop())")], "C16.D7"),
+    ("zero-cohesion tail overwrites the position just filled", [(BG, "                    ballot_type[i + 1 :] = remaining_blocs", "                    ballot_type[i:] = remaining_blocs")], "C16.D5"),
     ("zero-cohesion tail shuffles slates not slots", [(BG, "                    remaining_blocs = [\n                        b\n                        for b in blocs\n                        for _ in range(len(slate_to_non_zero_candidates[b]))\n                    ]\n                    random.shuffle(remaining_blocs)", "                    remaining_blocs = list(blocs)\n                    random.shuffle(remaining_blocs)\n                    remaining_blocs = [\n                        b\n                        for b in remaining_blocs\n                        for _ in range(len(slate_to_non_zero_candidates[b]))\n                    ]")], "C16.D5"),
     ("BT tables bound late", [(BG, "                bloc: self._BT_pdf(self.pref_interval_by_bloc[bloc].interval)\n                for bloc in self.blocs", "                bloc: self._BT_pdf(self.pref_interval_by_bloc[self.blocs[-1]].interval)\n                for bloc in self.blocs")], "C16.D6"),
     ("cohesion sum taken before the deletion", [(BG, "                del blocs[bloc_index]\n                del values[bloc_index]\n                total_value_sum = sum(values)\n", "                total_value_sum = sum(values)\n                del blocs[bloc_index]\n                del values[bloc_index]\n")], "C16.D5"),
